@@ -15,9 +15,26 @@ from . import report
 PIDS = ['C%02d' % i for i in range(1, 21)]
 
 
+def _confirm_idioms(prog):
+  """The fact closure treats `x.is_closed` as `x.state == ChannelState.Closed`: only while the property is defined that way."""
+  import ast as _ast
+  from . import util as _util
+  ok = False
+  f = prog.try_func('scales/sink.py', 'ClientMessageSink.is_closed') or prog.try_func('scales/sink.py', 'MessageSink.is_closed')
+  if f is not None:
+    body = [s_ for s_ in f.node.body if not (isinstance(s_, _ast.Expr) and isinstance(s_.value, _ast.Constant))]
+    ok = len(body) == 1 and isinstance(body[0], _ast.Return) and body[0].value is not None and \
+      _ast.unparse(body[0].value).replace(' ', '') in ('self.state==ChannelState.Closed', 'ChannelState.Closed==self.state')
+  if ok:
+    _util.STATE_PROPERTIES['is_closed'] = 'Closed'
+  else:
+    _util.STATE_PROPERTIES.pop('is_closed', None)
+
+
 def run_property(pid, tier, root=None):
   mod = importlib.import_module('sa.props.%s' % pid.lower())
   ctx = report.Ctx(pid, tier, Program(root))
+  _confirm_idioms(ctx.prog)
   try:
     mod.check(ctx)
   except AnalysisError:
